@@ -7,6 +7,7 @@ A term is a nested tuple:
   ('ite_gt', a, b, then, else)        if a > b then .. else ..
   ('by_status', {member: value}, default)
   ('carry', form, name)               amount carried from another form: equals it, or blank when not demanded
+  ('ceilmult', Fraction m, t)         t if it is a multiple of m, else the next multiple of m
 Only instructions matched completely by the strict grammar below are used; everything else is "uncovered".
 """
 import re
@@ -16,7 +17,8 @@ LN = r'(\d{1,2}\s?[a-z]{0,2}|[a-z]{1,3}\d?)'      # 15, 1a, 5 e, 12c
 NUM = r'\$?([\d,]+(?:\.\d+)?)'
 
 IGNORABLE = re.compile(r'^(This is|These are|Enter here|Enter the result|Enter the total|Enter this amount|Also|Note|Caution|Attach|For details|See instructions|'
-                       r'Number before|If zero, stop here|If more than zero, also include|Go to|Open parenthesis|Close parenthesis|\(see instructions\))', re.I)
+                       r'Number before|If zero, stop|If zero, skip to line|If more than zero, also include|If more than zero, enter this amount on|Go to|Open parenthesis|Close parenthesis|\(see instructions\)|'
+                       r'For example, if the result is|Excess advance child tax credit payments)', re.I)
 
 FORM_NAMES = [
     (re.compile(r'Schedule\s+1\b', re.I), '1040_s1'), (re.compile(r'Schedule\s+2\b', re.I), '1040_s2'), (re.compile(r'Schedule\s+3\b', re.I), '1040_s3'),
@@ -92,7 +94,7 @@ def parse(text, order=None, own_line=None):
         if re.match(r'^If\b', s2):
             return None     # conditional instruction: not covered
     if start is None:
-        return parse_carry(text)
+        return parse_status_table(text) or parse_carry(text)
     s = sents[start].rstrip('.')
     rest = sents[start + 1:]
     term = None
@@ -152,6 +154,13 @@ def parse(text, order=None, own_line=None):
         elif re.fullmatch(r'If line ' + LN + r' is more than line ' + LN + r', enter 0', r0, re.I):
             mm = re.fullmatch(r'If line ' + LN + r' is more than line ' + LN + r', enter 0', r0, re.I)
             term = ('ite_gt', ('line', None, norm_line(mm.group(1))), ('line', None, norm_line(mm.group(2))), ('const', Fraction(0)), term)
+        elif re.fullmatch(r'If more than zero and not a multiple of \$' + NUM[3:] + r', enter the next multiple of \$' + NUM[3:], r0, re.I):
+            mm = re.fullmatch(r'If more than zero and not a multiple of \$' + NUM[3:] + r', enter the next multiple of \$' + NUM[3:], r0, re.I)
+            if money(mm.group(1)) != money(mm.group(2)):
+                return None
+            term = ('ceilmult', money(mm.group(1)), term)
+        elif re.fullmatch(r'if the result is \$[\d,]+, enter \$[\d,]+(, etc)?', r0, re.I):
+            continue        # second half of a worked example
         elif re.fullmatch(r'If the result is 1\.000 or more, enter "?1\.000"?', r0, re.I):
             term = ('min', [('const', Fraction(1)), term])
         elif re.fullmatch(r'Enter the result as a decimal.*', r0, re.I):
@@ -163,6 +172,43 @@ def parse(text, order=None, own_line=None):
         else:
             continue
     return term, ' '.join(sents[start:start + 3])[:200]
+
+
+STATUS_WORDS = [
+    (r'married filing jointly or qualifying (?:widow\(er\)|surviving spouse)', ['MarriedFilingJointly', 'QualifyingWidowWidower', 'QualifyingSurvivingSpouse']),
+    (r'married filing jointly', ['MarriedFilingJointly']),
+    (r'qualifying (?:widow\(er\)|surviving spouse)', ['QualifyingWidowWidower', 'QualifyingSurvivingSpouse']),
+    (r'married filing separately', ['MarriedFilingSeparately']),
+    (r'head of household', ['HeadOfHousehold']),
+    (r'single', ['Single']),
+]
+
+
+def parse_status_table(text):
+    """'9. Enter the amount shown below for your filing status. Married filing jointly-$400,000. All other filing statuses-$200,000.'"""
+    t = re.sub(r'\s+', ' ', text.strip()).replace('\u2014', '-').replace('\u2013', '-')
+    m = re.search(r'Enter the amount shown below for your filing status\.\s*(.+)$', t, re.I)
+    if not m:
+        return None
+    table, default = {}, None
+    for part in [x.strip() for x in re.split(r'\.\s+|\.$', m.group(1)) if x.strip()]:
+        mm = re.fullmatch(r'(.+?)\s*-\s*\$' + NUM[3:], part)
+        if not mm:
+            return None
+        who, amount = mm.group(1).strip().lower(), money(mm.group(2))
+        if re.fullmatch(r'all other filing statuses', who):
+            default = amount
+            continue
+        for rx, members in STATUS_WORDS:
+            if re.fullmatch(rx, who):
+                for mem in members:
+                    table[mem] = amount
+                break
+        else:
+            return None
+    if default is None or not table:
+        return None
+    return ('by_status', table, default), m.group(0)[:200]
 
 
 def parse_carry(text):
